@@ -5,7 +5,7 @@
 set -u
 MX=${MX:-/tmp/mx}
 rm -rf $MX; mkdir -p $MX
-git -C /repo worktree add -q --detach $MX/repo HEAD || exit 2
+git -C /repo worktree add -q --detach $MX/repo ${BASE:-HEAD} || exit 2
 mkdir -p $MX/verif
 cp -r /verif/harness /verif/check /verif/known_findings.json /verif/MANIFEST.json $MX/verif/
 rm -rf $MX/verif/harness/target
